@@ -7,8 +7,13 @@ import Uft.Model.Graph
    body <hex>                        -> 1/0  (valid JSON string body)
    json <hex>                        -> 1/0  (valid JSON text)
    name <fixed> <hex>                -> "<oob> <term> <pos> <hex of name_buf string>"
-   chrome <fixed> <exename> <version> <date> <cmdline|~> | syms | tid:pid … | recs
+   chrome <fix> <exename> <version> <date> <cmdline|~> | syms | tid:pid … | recs [| arglists]
                                      -> "<oob> <hex of the whole output>"
+       <fix>: "1" = every repair, "0" = none, or three digits main/abuf/asym (Json.Fix);
+       a record may carry a fifth field, the index of its value list in `arglists`;
+       a value list is "-" (empty) or values joined by ",": s<hex> string, S<hex> std::string,
+       c<hex byte> char, y<hex> pointer to the symbol of that name, r<hex> printf text
+   args <abuf> <asym> <retval> <arglist> -> "<oob> <term> <pos> <len> <hex of the spec_buf string>"
    flame <fixed> <st | auto:total> | syms | tid:pid … | recs          -> hex of the output
    graphviz <exename> <version> <cmdline|~> | syms | tasks | recs -> hex of the output
    mermaid <exename> | syms | tasks | recs                    -> hex of the edge lines
@@ -69,6 +74,71 @@ def trace (syms tasks recs : List String) : Option (List Task × List Out) :=
     | none => none
   | _, _ => none
 
+def parseFix (s : String) : Option Fix :=
+  if s = "1" then some Fix.all
+  else if s = "0" then some Fix.none
+  else match s.toList with
+    | [a, b, c] =>
+      if (a = '0' ∨ a = '1') ∧ (b = '0' ∨ b = '1') ∧ (c = '0' ∨ c = '1') then
+        some ⟨a = '1', b = '1', c = '1'⟩
+      else none
+    | _ => none
+
+def hexTail (w : String) : Option (List Nat) :=
+  let r := (w.drop 1).toString
+  if r = "" then some [] else bytes r
+
+def parseVal (w : String) : Option ArgVal :=
+  match w.toList.head?, hexTail w with
+  | some 's', some b => some (.str b false)
+  | some 'S', some b => some (.str b true)
+  | some 'c', some [c] => some (.chr c)
+  | some 'y', some b => some (.sym b)
+  | some 'r', some b => some (.raw b)
+  | _, _ => none
+
+def parseVals (w : String) : Option (List ArgVal) :=
+  if w = "-" then some []
+  else (w.splitOn ",").foldr (fun x acc => match acc, parseVal x with
+    | some l, some v => some (v :: l)
+    | _, _ => none) (some [])
+
+def parseArgLists (ws : List String) : Option (Array (List ArgVal)) :=
+  ws.foldl (fun acc w => match acc, parseVals w with
+    | some a, some v => some (a.push v)
+    | _, _ => none) (some #[])
+
+/-- the optional fifth field of the records: index into the value lists -/
+def recArgIdx (ws : List String) : Option (List (Option Nat)) :=
+  ws.foldr (fun w acc => match acc, w.splitOn ":" with
+    | some l, [_, _, _, _] => some (none :: l)
+    | some l, [_, _, _, _, a] => match a.toNat? with
+      | some n => some (some n :: l)
+      | none => none
+    | _, _ => none) (some [])
+
+def stripArgIdx (ws : List String) : List String :=
+  ws.map fun w => ":".intercalate ((w.splitOn ":").take 4)
+
+/-- the events of `dump --chrome`: one per record (with its value list) and the closing
+    events of the calls still open (`more = 0`) -/
+def mkEvs (ts : List Task) (os : List Out) (idx : List (Option Nat)) (al : Array (List ArgVal)) : List Ev :=
+  let rec go : List Out → List (Option Nat) → List Ev
+    | [], _ => []
+    | o :: os, [] => ⟨o.entry, o.tid, pidOf ts o.tid, o.name, o.time, none⟩ :: go os []
+    | o :: os, i :: is =>
+      ⟨o.entry, o.tid, pidOf ts o.tid, o.name, o.time, i.map (fun k => al.getD k [])⟩ :: go os is
+  go os idx
+
+def chromeLine (f exe ver date cmd : String) (syms tasks recs args : List String) : String :=
+  match parseFix f, bytes exe, bytes ver, bytes date, optBytes cmd, trace syms tasks (stripArgIdx recs),
+        recArgIdx recs, parseArgLists args with
+  | some fx, some exe, some ver, some date, some cmd, some (ts, os), some idx, some al =>
+    let d : Doc := { exename := exe, version := ver, date := date, cmdline := cmd, tasks := ts,
+                     evs := mkEvs ts os idx al }
+    s!"{b2s (chromeOob fx d)} {hex (chromeOutput fx d)}"
+  | _, _, _, _, _, _, _, _ => "bad-op"
+
 partial def showGraph (depth : Nat) : Nodes → List String
   | .nil => []
   | .cons n rest =>
@@ -87,13 +157,13 @@ def handle (ws : List String) : String :=
     | some b => let r := escapeName (f = "1") b
                 s!"{b2s r.oob} {b2s r.term} {r.pos} {hex r.out}"
     | none => "bad-op"
-  | [["chrome", f, exe, ver, date, cmd], syms, tasks, recs] =>
-    match bytes exe, bytes ver, bytes date, optBytes cmd, trace syms tasks recs with
-    | some exe, some ver, some date, some cmd, some (ts, os) =>
-      let d : Doc := { exename := exe, version := ver, date := date, cmdline := cmd, tasks := ts,
-                       evs := os.map fun o => ⟨o.entry, o.tid, pidOf ts o.tid, o.name, o.time⟩ }
-      s!"{b2s (chromeOob (f = "1") d)} {hex (chromeOutput (f = "1") d)}"
-    | _, _, _, _, _ => "bad-op"
+  | [["chrome", f, exe, ver, date, cmd], syms, tasks, recs] => chromeLine f exe ver date cmd syms tasks recs []
+  | [["chrome", f, exe, ver, date, cmd], syms, tasks, recs, args] => chromeLine f exe ver date cmd syms tasks recs args
+  | [["args", ab, as, rv, l]] =>
+    match parseVals l with
+    | some vs => let r := argString (ab = "1") (as = "1") (rv = "1") vs
+                 s!"{b2s r.oob} {b2s r.term} {r.pos} {r.len} {hex r.out}"
+    | none => "bad-op"
   | [["flame", f, st], syms, tasks, recs] =>
     let st? : Option Nat := if st.startsWith "auto:" then ((st.drop 5).toString.toNat?).map autoSample else st.toNat?
     match st?, trace syms tasks recs with
